@@ -50,8 +50,9 @@ def main():
     index = []
     for sid in sorted(os.listdir(src)):
         d = os.path.join(src, sid)
-        if not os.path.isfile(os.path.join(d, "patch.diff")):
-            continue
+        if not os.path.isfile(os.path.join(d, "patch.diff")) or not os.path.isfile(os.path.join(d, "meta.json")) \
+                or sid not in results:
+            continue          # not delivered completely yet / not evaluated yet
         meta = json.load(open(os.path.join(d, "meta.json")))
         r = results.get(sid, {})
         confirmed = bool(r.get("applies") and r.get("suite_ok") and r.get("demo_fails_with") and r.get("demo_passes_without"))
@@ -84,12 +85,22 @@ def main():
             m["note"] = note
             json.dump(m, open(os.path.join(dst, "meta.json"), "w"), indent=1, ensure_ascii=False)
         index.append((sid, meta.get("property"), confirmed, sorted(caught), note))
-    with open(os.path.join(out, "INDEX.md"), "w") as f:
+    # rows of seeds that are not in `src` this time (earlier rounds) are kept as they are
+    rows = {}
+    ipath = os.path.join(out, "INDEX.md")
+    if os.path.exists(ipath):
+        for l in open(ipath):
+            cells = [c.strip() for c in l.strip().strip("|").split("|")]
+            if len(cells) >= 5 and cells[0] not in ("id", "---") and os.path.isdir(os.path.join(out, cells[0])):
+                rows[cells[0]] = l if l.endswith("\n") else l + "\n"
+    for sid, p, ok, caught, note in index:
+        rows[sid] = f"| {sid} | {p} | {'yes' if ok else 'NO'} | {', '.join(caught) or '—'} | {note} |\n"
+    with open(ipath, "w") as f:
         f.write("# Seeded changes (written by independent sub-agents that saw only the property text)\n\n")
         f.write("| id | breaks | confirmed (applies, suite passes, demo fails with / passes without) | caught by | note |\n|---|---|---|---|---|\n")
-        for sid, p, ok, caught, note in index:
-            f.write(f"| {sid} | {p} | {'yes' if ok else 'NO'} | {', '.join(caught) or '—'} | {note} |\n")
-    print(f"{len(index)} seeds collected")
+        for sid in sorted(rows):
+            f.write(rows[sid])
+    print(f"{len(index)} seeds collected, {len(rows)} rows in INDEX.md")
 
 
 NOTES = {
